@@ -1,4 +1,4 @@
-"""PROOF9: the two example histories of Props/C02 (`Edit.rOps`, `Edit.uOps`) replayed on modelx.
+"""PROOF9: the three example histories of Props/C02 (`Edit.rOps`, `Edit.uOps`, `Edit.sOps`) replayed on modelx.
 exit 0 = modelx does what the machine does."""
 import sys, warnings
 warnings.simplefilter("ignore")
@@ -34,5 +34,17 @@ before = names(m)
 A.rename("Z")
 after = names(m)
 if before != ["A.f", "A.u"] or after != []: bad.append(("nodes", before, after))
+# sOps: a slot in a renamed space: T.c = S.x through a reference to the space; the rename keeps T.c, Z.x = 5 clears it
+m = mx.new_model()
+m.x = 1
+S = m.new_space("S"); T = m.new_space("T")
+T.S = S
+T.new_cells("c", formula="lambda: S.x")
+if T.c() != 1: bad.append("S.x")
+S.rename("Z")
+if dict(T.c._impl.data) != {(): 1}: bad.append(("T.c after the rename", dict(T.c._impl.data)))
+m.Z.x = 5
+if dict(T.c._impl.data) != {}: bad.append(("T.c after Z.x = 5", dict(T.c._impl.data)))
+if T.c() != 5: bad.append(("T.c()", T.c()))
 print("disagreements:", bad)
 sys.exit(1 if bad else 0)
